@@ -109,6 +109,15 @@ class C09(Spec):
                 cases.append(base_setup("r k*") + ["SESS 2", f"C 2 {na}", f"C 2 {pv}", "C 1 keys"])
             cases.append(base_setup("r k*") + ["SESS 2", "C 2 use-db t tok", f"C 2 {na}", "C 2 get $$token", "C 2 set $$x 1", "C 2 keys", "C 1 keys"])
         near_token = ["use-db t to", "use-db t tokx", "use-db t", "use-db t ", "use-db t tok x", "use-db t u up", "use-db t u upwx", "use-db t u", "use-db t u ", "use-db t upw", "use-db t u upw x", "use-db t U upw", "use-db t TOK", "use-db t  tok", "use-db T tok", "use-db t u  upw"]
+        # … and the texts the code's own accessors hand out where NOTHING is stored (`<Empty>`, the empty text), offered as the token of a user
+        # that does not exist, of the default user `all`, of an existing user
+        near_token += ["use-db t ghost <Empty>", "use-db t all <Empty>", "use-db t u <Empty>", "use-db t ghost", "use-db t all all", "use-db t all", "use-db t ghost \\e", "use-db t all tok", "use-db t ghost tok"]
+        # a user REMOVED by the administrator — before and after the removal reached the disk (then the entry stays in memory as a tombstone
+        # whose text is `<Empty>`): nobody logs in as that user any more, with the old token, with `<Empty>`, with nothing
+        for persisted in (False, True):
+            for tok in ("<Empty>", "upw", "", "tok"):
+                for pv in ("get k1", "set k1 n", "keys"):
+                    cases.append(base_setup("rwix *") + (["C 1 snapshot false", "SNAP"] if persisted else []) + ["C 1 remove $$user_u", "SESS 2", f"C 2 use-db t u {tok}".rstrip(), f"C 2 {pv}", "C 1 set k1 again", "C 1 keys"])
         for nt in near_token:
             for pv in ("get k1", "set k1 n", "keys", "remove zz", "increment k1", "watch k1"):
                 cases.append(base_setup("rwix *") + ["SESS 2", f"C 2 {nt}", f"C 2 {pv}", "C 1 set k1 again", "C 1 keys"])
